@@ -41,6 +41,23 @@ def gen(tier, rng):
                 for var in ("sync", "async:1"):
                     late = t0 + off * P.NS
                     out.append((P.line(var, "5", None, None, ex, True, [t0, late, late, t0 + ex * P.NS, t0 + ex * P.NS + 1], ["pending", "pending", "pending", "success"]), "long-lifetime"))
+    out += c05.source_literal_http(["devauth"], rng)
+    # integers that are new in the source (gen/srclit.py): as interval and as lifetime of the accepted response, polled with a
+    # clock that reads just before / at / after start + n seconds; as interval with a ceiling below and above it
+    from gen import srclit as SL
+    for k in SL.sizes(limit=P.U64, lo=0):
+        t0 = 1700000000 * P.NS
+        for var in ("sync", "async:1"):
+            for (iv, ex) in ((str(k), 10 * k + 100), ("5", k), (str(k), k), ("abs", 2 * k + 1), (str(max(k // 1000, 1)), max(k // 1000, 1))):
+                if ex * P.NS > P.MAXDELTA:
+                    continue
+                end = t0 + ex * P.NS
+                for name, readings in (("before", [t0, max(t0, end - 1), max(t0, end - 1), end, end + 1]), ("spread", [t0, t0 + (end - t0) // 2, end, end + 1, end + 1]), ("at-n", [t0, min(end, t0 + k * P.NS), min(end, t0 + k * P.NS), end, end + 1]),
+                                       ("after-n", [t0, min(end, t0 + k * P.NS + 1), min(end, t0 + k * P.NS + 1), end, end + 1])):
+                    out.append((P.line(var, iv, None, None, ex, True, readings, ["pending", "slow", "fail", "success"]), "source-literal/poll-" + name))
+                for ce in (0, max(k - 1, 0) * P.NS, (k + 1) * P.NS, k * 10 ** 6):
+                    if ce <= P.DMAX:
+                        out.append((P.line(var, iv, ce, None, ex, True, [t0, t0, t0, t0, end + 1], ["fail", "fail", "pending", "success"]), "source-literal/poll-ceiling"))
     # large, valid documents through a 200 reply (around and beyond 64 KiB): accepted like small ones
     for size in (65000, 65537, 70000):
         m_, known_ = D.family_doc("device", rng, False)
